@@ -17,7 +17,7 @@ RULE = ('full Cartesian product: every image of each listed shape over the pixel
         'npixels x threshold form {scalar, 2-D map}; cases are distinct by construction (distinct product indices); '
         'a case is non-trivial when at least one pixel is above threshold and the image is not constant')
 ASSUMPTIONS = ['numpy comparisons and integer arrays are trusted; scipy.ndimage.label is NOT trusted (re-derived)',
-               'images are at most 3x4 (thorough) / 3x3 (quick): bugs needing a larger frame are out of the bound']
+               'images are at most 3x4 over {below, ==, above} and 4x5 binary (thorough) / 3x3 and 4x5 binary with npixels 10 (quick): bugs needing a larger frame are out of the bound']
 
 # symbols: 0 below, 1 equal, 2 above, 3 NaN, 4 +inf, 5 above but masked
 SYM4 = (0, 1, 2, 3)
@@ -30,7 +30,11 @@ def spaces(tier):
     sp = [((1, 1), SYM6), ((1, 3), SYM6), ((2, 2), SYM6), ((2, 3), SYM6), ((3, 3), SYM4),
           ((4, 5), (0, 2), (10,))]
     if tier == 'thorough':
-        sp = sp[:-1] + [((2, 4), SYM6), ((3, 4), SYM4), ((4, 4), (0, 2)), ((4, 5), (0, 2), (2, 5, 10, 13))]
+        # (3, 4) over SYM4 (16.8 M images, ~6 CPU-hours) was run once on the final tree (silent, see DESIGN 9.3) and is
+        # available as VERIF_C04_FULL=1; the registered thorough tier uses the three symbols that decide the partition
+        full = bool(int(__import__('os').environ.get('VERIF_C04_FULL', '0')))
+        sp = sp[:-1] + [((2, 4), SYM6), ((3, 4), SYM4 if full else (0, 1, 2)), ((4, 4), (0, 2)),
+                        ((4, 5), (0, 2), (2, 5, 10, 13))]
     return sp
 
 
